@@ -13,14 +13,21 @@ for d in /verif/seeded/C*-*/; do
   id=$(basename $d); c=${id%-*}
   cd /repo; git checkout -q -- .
   if ! git apply $d/patch.diff 2>/dev/null; then echo "| $id | (patch does not apply) | | | | |" >> $M; continue; fi
-  cd /verif; ./check $c quick > work/matrix.$id.log 2>&1; rc=$?
+  # the property's own check first; seeded/<id>/also.txt may name sibling checks to try when it stays silent
+  cd /verif; ./check $c quick > work/matrix.$id.log 2>&1; rc=$?; used="./check $c quick"
+  if [ $rc -eq 0 ] && [ -f $d/also.txt ]; then
+    for c2 in $(cat $d/also.txt); do
+      ./check $c2 quick > work/matrix.$id.log 2>&1; rc=$?; used="./check $c quick (silent); ./check $c2 quick"
+      [ $rc -ne 0 ] && break
+    done
+  fi
   cd /repo; git checkout -q -- .
   sigs=$(grep '^  sig=' /verif/work/matrix.$id.log | sed 's/  sig=//' | sort -u | head -6 | tr '\n' ';' | sed 's/;/; /g')
   grep '^  sig=' /verif/work/matrix.$id.log | sort -u > $d/detected.txt
   summary=$(python3 -c "import json;m=json.load(open('$d/meta.json'));print(m.get('summary','').replace('|','/')[:220])")
   needs=$(python3 -c "import json;m=json.load(open('$d/meta.json'));print(m.get('needs','').replace('|','/')[:200])")
   res=$([ $rc -eq 1 ] && echo "caught (exit 1)" || echo "MISSED (exit $rc)")
-  echo "| $id | $summary | $needs | ./check $c quick | $res | $sigs |" >> $M
+  echo "| $id | $summary | $needs | $used | $res | $sigs |" >> $M
   echo "$id rc=$rc"
 done
 cd /repo; git checkout -q -- .
